@@ -182,6 +182,11 @@ func cat(bs ...[]byte) []byte {
 // indexing), TR (trace indexing).
 var c12Shapes = []string{"EV1", "EV2", "EV3", "TX", "TR"}
 
+// array shapes: one selected ARRAY input (one row per element) next to an indexed scalar input.
+var c12ArrayShapes = []string{"EVA", "EVB", "EVC"}
+
+func c12IsArrayShape(s string) bool { return s == "EVA" || s == "EVB" || s == "EVC" }
+
 func c12BaseDecl(shape, name, table string) *world.Decl {
 	d := &world.Decl{Name: name, Table: table, Sources: []world.SrcRef{{Name: "src1", Start: 1}}}
 	switch shape {
@@ -206,6 +211,24 @@ func c12BaseDecl(shape, name, table string) *world.Decl {
 			{Name: "a", Type: "address", Indexed: true, Column: "c_a"},
 			{Name: "n", Type: "uint256", Indexed: true, Column: "c_n"},
 		}
+	case "EVA":
+		d.Event = "Batch"
+		d.Inputs = []world.Input{
+			{Name: "op", Type: "address", Indexed: true, Column: "c_op"},
+			{Name: "ids", Type: "uint256[]", Column: "c_id"},
+		}
+	case "EVB":
+		d.Event = "Marks"
+		d.Inputs = []world.Input{
+			{Name: "op", Type: "address", Indexed: true, Column: "c_op"},
+			{Name: "who", Type: "address[]", Column: "c_who"},
+		}
+	case "EVC":
+		d.Event = "Tags"
+		d.Inputs = []world.Input{
+			{Name: "op", Type: "address", Indexed: true, Column: "c_op"},
+			{Name: "tags", Type: "bytes32[]", Column: "c_tag"},
+		}
 	case "TX":
 		d.Fields = []world.Field{{Name: "tx_hash", Column: "tx_hash"}}
 	case "TR":
@@ -219,7 +242,7 @@ func c12BaseDecl(shape, name, table string) *world.Decl {
 // kind of a filter target: "bytes", "dyn" (variable-length bytes), "string", "u64", "u256".
 func c12Kind(shape, target string) string {
 	switch target {
-	case "in:from", "in:to", "in:tag", "in:a", "f:tx_to", "f:log_addr", "f:trace_action_from", "f:trace_action_to":
+	case "in:from", "in:to", "in:tag", "in:a", "in:op", "in:who", "in:tags", "f:tx_to", "f:log_addr", "f:trace_action_from", "f:trace_action_to":
 		return "bytes"
 	case "in:blob", "f:tx_input":
 		return "dyn"
@@ -227,7 +250,7 @@ func c12Kind(shape, target string) string {
 		return "string"
 	case "f:block_num", "f:tx_nonce", "f:tx_gas_used":
 		return "u64"
-	case "in:value", "in:amt", "in:n", "f:tx_value", "f:trace_action_value":
+	case "in:value", "in:amt", "in:n", "in:ids", "f:tx_value", "f:trace_action_value":
 		return "u256"
 	}
 	panic("c12: unknown target " + target)
@@ -241,11 +264,11 @@ func c12Classes(target string) [3]string {
 	}
 	bi := func(b [3]*big.Int) [3]string { return [3]string{b[0].String(), b[1].String(), b[2].String()} }
 	switch target {
-	case "in:from", "in:a":
+	case "in:from", "in:a", "in:op", "in:who":
 		return hx(c12From)
 	case "in:to":
 		return hx(c12ToIn)
-	case "in:tag":
+	case "in:tag", "in:tags":
 		return hx(c12Tag)
 	case "f:tx_to":
 		return hx(c12TxTo)
@@ -263,7 +286,7 @@ func c12Classes(target string) [3]string {
 		return c12Memo
 	case "f:trace_action_call_type":
 		return c12CT
-	case "in:value", "in:amt", "in:n", "f:trace_action_value":
+	case "in:value", "in:amt", "in:n", "in:ids", "f:trace_action_value":
 		return bi(u256Cls(c12K))
 	case "f:tx_value":
 		return bi(u256Cls(c12V))
@@ -330,11 +353,50 @@ func c12BuildChain(shape string, rd *world.Decl, regs []ref.Value) *simeth.Chain
 			return d.MkLog(c12Emit[e], world.AddrWord(c12From[cls[0]]), world.WordBig(kc[cls[1]]))
 		}
 	}
+	// array shapes: every sequence of length 1..3 over the three classes of the element kind (39
+	// arrays: accepted and rejected elements in every order), each emitted twice (two contracts,
+	// two classes of the scalar input), spread over the nine transactions of blocks 1..3
+	var arrLogs []*simeth.Log
+	if c12IsArrayShape(evShape) {
+		var seqs [][]int
+		for n := 1; n <= 3; n++ {
+			cnt := 1
+			for i := 0; i < n; i++ {
+				cnt *= 3
+			}
+			for c := 0; c < cnt; c++ {
+				q, x := make([]int, n), c
+				for i := n - 1; i >= 0; i-- {
+					q[i], x = x%3, x/3
+				}
+				seqs = append(seqs, q)
+			}
+		}
+		for i, q := range seqs {
+			var els []any
+			for _, cl := range q {
+				switch evShape {
+				case "EVA":
+					els = append(els, world.WordBig(kc[cl]))
+				case "EVB":
+					els = append(els, world.AddrWord(c12From[cl]))
+				default:
+					els = append(els, append([]byte{}, c12Tag[cl]...))
+				}
+			}
+			for k := 0; k < 2; k++ {
+				arrLogs = append(arrLogs, d.MkLog(c12Emit[(i+k)%3], world.AddrWord(c12From[(i/3+2*k)%3]), els))
+			}
+		}
+	}
 	var specs []simeth.BlockSpec
 	for b := 0; b < 3; b++ {
 		var bs simeth.BlockSpec
 		for t := 0; t < 3; t++ {
 			var ts simeth.TxSpec
+			for i := b*3 + t; i < len(arrLogs); i += 9 {
+				ts.Logs = append(ts.Logs, arrLogs[i])
+			}
 			for x := 0; x < 3; x++ {
 				for y := 0; y < 3; y++ {
 					switch evShape {
@@ -353,10 +415,12 @@ func c12BuildChain(shape string, rd *world.Decl, regs []ref.Value) *simeth.Chain
 			if b == 0 && t == 0 {
 				// decoys: another event from a filtered address; the declared signature with one topic too many
 				ts.Logs = append(ts.Logs, decoy.MkLog(c12Emit[0], world.AddrWord(c12From[0]), world.WordBig(c12K)))
-				w := mk(0, 0, 0, 0, 0)
-				w.Topics = append(w.Topics, simeth.Word("c12-extra-topic"))
-				w.Note = nil
-				ts.Logs = append(ts.Logs, w)
+				if !c12IsArrayShape(evShape) {
+					w := mk(0, 0, 0, 0, 0)
+					w.Topics = append(w.Topics, simeth.Word("c12-extra-topic"))
+					w.Note = nil
+					ts.Logs = append(ts.Logs, w)
+				}
 			}
 			bs.Txs = append(bs.Txs, ts)
 		}
